@@ -6,6 +6,7 @@ from vlib import regen
 from checks import c04sql
 from checks import c04filter as cf
 from checks import c04pit
+from checks import c04eval
 
 META = {
     "text": "PARTIAL.  Stage 1 (proved + tied): Lean theorems about Store.replay, the independent fold of a bucket's log entries the property "
@@ -863,6 +864,126 @@ def stage2(ctx, sv_inputs, sv_seen):
     return len(inputs or [])
 
 
+# ---------------------------------------------------------------- stage 2h: the captured aggregated-balances statement, evaluated
+
+READEVAL_NOTE = ("the statement is the text the REAL ledgerstore.Store.GetAggregatedBalances sent for this ledger, point in time and filter (recording driver); "
+                 "the rows of moves are those the Lean translation of 0-init-schema.sql (Generated/Schema.lean, semantics of Model/Store/Sql.lean) holds after the "
+                 "history — PostgreSQL cannot be run here; checks/c04eval.py interprets the statement (conditions, DISTINCT ON, ORDER BY and the volumes column are read "
+                 "from the text).  Re-run: bin/check C04 --replay <this file>")
+
+
+def stage_reads(ctx, sv_inputs, sv_seen):
+    """GetAggregatedBalances as of an instant == the replay of the entries inserted by that instant, on generated histories: real statement
+    text x projected rows, at instants that fall between insertion order and timestamp order."""
+    if ctx.replay_file:
+        rp = json.load(open(ctx.replay_file))["replay"]
+        if rp.get("area") != "readeval":
+            return None
+        hist = [dict(rp["input"], id=0)]
+        only = (rp["ledger"], rp["pit"], rp.get("address"))
+    else:
+        if sv_inputs is None:
+            return None
+        only = None
+        cap = 150 if ctx.quick else 3000
+        cands = []
+        for i in sv_inputs:
+            if any(l.get("tx", {}).get("tz") for l in i["logs"]):
+                continue      # the offset half of design 6 #25 has its own obligations; here every timestamp is the instant
+            if not any("tx" in l for l in i["logs"]):
+                continue
+            skew = sum(1 for l in i["logs"] if "tx" in l and l["tx"]["timestamp"] != l["date"])
+            cands.append((0 if i.get("corpus") else 1, -min(skew, 3), i["id"], i))
+        cands.sort(key=lambda x: x[:3])
+        hist = [with_stored_offsets(c[3], sv_seen) for c in cands[:cap]]
+    if not hist:
+        return None
+    inf, outf = ctx.path("storesql-moves.in.jsonl"), ctx.path("storesql-moves.model.jsonl")
+    write_jsonl(inf, hist)
+    p = run_driver_sql("storesql-moves", inf, outf)
+    if p.returncode != 0:
+        ctx.l2_broken.append({"stream": "storesql-moves-driver", "detail": (p.stdout + p.stderr)[-2000:]})
+        return None
+    rows_of = {r["id"]: r["out"] for r in read_jsonl(outf)}
+    cases, st = [], collections.Counter()
+    for h in hist:
+        ro = rows_of.get(h["id"])
+        if ro is None or "driver_error" in ro:
+            ctx.l2_broken.append({"stream": "storesql-moves-driver-error", "id": h["id"], "model": ro})
+            continue
+        for ledger in h["ledgers"]:
+            if not c04eval.monotone(h["logs"], ledger):
+                st["ledgers_skipped (log dates decrease: the instant does not cut the log at a prefix; the commander dates entries in order)"] += 1
+                continue
+            accts = []
+            for l in h["logs"]:
+                if l["ledger"] == ledger and "tx" in l:
+                    for q in l["tx"]["postings"]:
+                        for a in (q["source"], q["destination"]):
+                            if a not in accts and re.fullmatch(r"[a-zA-Z0-9_:]+", a):
+                                accts.append(a)
+            for t in c04eval.instants(h["logs"], ledger, 6 if ctx.quick else 16):
+                for a in [None] + accts[:2 if ctx.quick else 6]:
+                    if only and (ledger, t, a) != tuple(only):
+                        continue
+                    cases.append({"id": len(cases), "method": "GetAggregatedBalances", "ledger": ledger, "pit": t, "vol": False, "eff": False, "arg": "",
+                                  "filter": "" if a is None else json.dumps({"$match": {"address": a}}), "_h": h["id"], "_a": a})
+    if not cases:
+        return None
+    by_h = {h["id"]: h for h in hist}
+    inf, outf = ctx.path("readeval.in.jsonl"), ctx.path("readeval.impl.jsonl")
+    write_jsonl(inf, [{k: v for k, v in c.items() if not k.startswith("_")} for c in cases])
+    p = run_harness(["readsql", "exec", "-in", inf, "-out", outf])
+    if p.returncode != 0:
+        ctx.l2_broken.append({"stream": "readeval-exec", "detail": (p.stdout + p.stderr)[-2000:]})
+        return None
+    impl = {r["id"]: r["out"] for r in read_jsonl(outf)}
+    plans = collections.Counter()
+    for c in cases:
+        out = impl.get(c["id"]) or {}
+        stmts = [q for q in out.get("sql", []) if not q.startswith("PREPARE ")]
+        if out.get("err") or len(stmts) != 1:
+            ctx.l2_broken.append({"stream": "readeval-capture", "id": c["id"], "input": c, "impl": out})
+            continue
+        sql, h, ledger, t, a = stmts[0], by_h[c["_h"]], c["ledger"], c["pit"], c["_a"]
+        try:
+            plan = c04eval.plan_of(sql, ledger)
+        except c04sql.SqlShapeError as e:
+            ctx.l2_broken.append({"stream": "readeval-shape", "id": c["id"], "input": c, "impl": sql, "detail": str(e)})
+            continue
+        plans["cut on %s | distinct on (%s) | picked by (%s) | sums %s" % (
+            ", ".join("%s %s" % (x[0], x[1]) for x in plan["conditions"] if x[0] in c04eval.DATE_COLS) or "nothing",
+            ", ".join(plan["distinct_on"]), ", ".join(k + (" desc" if d else " asc") for k, d in plan["picked_by"]), plan["volumes_column"])] += 1
+        got, kept = c04eval.evaluate(plan, rows_of[h["id"]]["moves"])
+        want = c04eval.fold(h["logs"], ledger, lambda l, tx: l["date"] <= t, a)
+        st["statements_evaluated"] += 1
+        st["with_an_address_filter"] += 1 if a is not None else 0
+        split = any(("tx" in l) and l["ledger"] == ledger and ((l["date"] <= t) != (l["tx"]["timestamp"] <= t)) for l in h["logs"])
+        st["at_an_instant_between_insertion_and_timestamp_order"] += 1 if split else 0
+        st["non_empty_answers"] += 1 if want else 0
+        hist_in = {k: v for k, v in h.items() if k not in ("corpus", "id")}
+        rep = {"area": "readeval", "input": hist_in, "ledger": ledger, "pit": t, "address": a, "model_level_rows": True, "note": READEVAL_NOTE,
+               "observed": {"sql": sql, "read_as": plan, "rows_of_moves_kept": kept, "reported": got,
+                            "replay_of_the_entries_inserted_by_the_instant": want,
+                            "for information, the fold of the entries DATED by the instant": c04eval.fold(h["logs"], ledger, lambda l, tx: tx["timestamp"] <= t, a)}}
+        if canon(got) != canon(want):
+            ctx.violation({"property": "C04", "class": "read-differs-from-replay", "method": "GetAggregatedBalances", "filter": "address" if a else "none",
+                           "level": "model"},
+                          "GetAggregatedBalances of ledger %s at %d%s: the statement sent, evaluated on the projected moves, reports %s; the replay of the log entries "
+                          "inserted by that instant gives %s" % (ledger, t, " (address %s)" % a if a else "", canon(got), canon(want)), rep)
+        elif a is None:
+            for asset, v in got.items():
+                if v is not None and v[0] != v[1]:
+                    ctx.violation({"property": "C04", "class": "conservation", "store": "sql-read", "method": "GetAggregatedBalances", "level": "model"},
+                                  "GetAggregatedBalances of ledger %s at %d over all accounts: inputs of %s (%s) differ from its outputs (%s)" % (ledger, t, asset, v[0], v[1]), rep)
+    ctx.cov["evaluations"] = ctx.cov.get("evaluations", 0) + st["statements_evaluated"]
+    return {"histories": len(hist), "statements_captured_and_evaluated": st["statements_evaluated"], "detail": dict(st),
+            "plans_read_from_the_text": dict(plans),
+            "rule": "histories of the storeview run without UTC offsets, those with back- / future-dated transactions first; per ledger with non-decreasing log dates: "
+                    "the instants (log dates, timestamps, midpoints, the microsecond before the first) on which insertion order and timestamp order disagree first; "
+                    "no filter and an exact-address filter per account"}
+
+
 # ---------------------------------------------------------------- the check
 
 
@@ -970,6 +1091,8 @@ def run(ctx):
     # ---------------- stage 2: the generated PL/pgSQL projection (model level)
     n2 = stage2(ctx, sv_inputs, sv_seen) or 0
     ctx.cov["evaluations"] += n2
+    if "driver_sql-build" not in [b.get("stream") for b in ctx.l2_broken]:
+        ctx.cov["aggregated_balances_evaluated"] = stage_reads(ctx, sv_inputs, sv_seen)
     ctx.cov["distinct_nontrivial"] = ctx.cov.get("storeview", {}).get("distinct_nontrivial", 0) + rs_eval
     ctx.cov["rule"] = ("storeview: random bucket histories (1-3 ledgers, <= %d log entries, NEW_TRANSACTION with back-/future-/equal-dated "
                        "timestamps, self-postings, 2^64+-1 and 2^70 amounts, REVERTED_TRANSACTION, SET/DELETE_METADATA on accounts and transactions, "
